@@ -17,6 +17,7 @@ from hypothesis import strategies as st
 import falcon
 import falcon.asgi
 
+from vf.gen import resp_history as RH
 from vf.core import HarnessError, Info, Suite, Violation
 from vf.drivers import asgi as A
 from vf.drivers import wsgi as W
@@ -465,7 +466,7 @@ def fill_response(case, resp, rec):
     if case.get('data') is not None:
         resp.data = case['data']
     if case.get('media') is not None:
-        resp.media = case['media']['v']
+        resp.media = case['media']['v'] if not case.get('body_ops') else __import__('copy').deepcopy(case['media0'])
     spec = case.get('stream')
     if spec is not None:
         kind = spec['kind']
@@ -479,6 +480,51 @@ def fill_response(case, resp, rec):
                 resp.set_stream(obj, spec['length'])
             else:
                 resp.stream = obj
+
+
+def _mutate_doc(doc, i):
+    if isinstance(doc, dict):
+        doc['zz%d' % i] = i
+    elif isinstance(doc, list):
+        doc.append(i)
+    return doc
+
+
+def body_ops_final(case):
+    """Reference for a history of assignments: the LAST value assigned to each of text / data / media counts."""
+    import copy
+    state = {'text': case.get('text'), 'data': case.get('data'),
+             'media': copy.deepcopy(case['media']['v']) if case.get('media') is not None else None}
+    for i, op in enumerate(case.get('body_ops') or ()):
+        if op[0] in ('text', 'data'):
+            state[op[0]] = op[1]
+        elif op[0] == 'media':
+            state['media'] = copy.deepcopy(op[1])
+        elif op[0] == 'mutate_reassign' and state['media'] is not None:
+            _mutate_doc(state['media'], i)
+    return dict(case, text=state['text'], data=state['data'],
+                media=({'v': state['media']} if state['media'] is not None else None))
+
+
+def body_ops_steps(case, resp):
+    """Apply the history to the real response; yields what render_body() returned (a coroutine on ASGI)."""
+    import copy
+    doc = resp.media
+    for i, op in enumerate(case.get('body_ops') or ()):
+        if op[0] == 'text':
+            resp.text = op[1]
+        elif op[0] == 'data':
+            resp.data = op[1]
+        elif op[0] == 'media':
+            doc = copy.deepcopy(op[1])
+            resp.media = doc
+        elif op[0] == 'mutate_reassign':
+            if doc is not None:
+                resp.media = _mutate_doc(doc, i)
+        elif op[0] == 'render':
+            yield resp.render_body()
+        elif op[0] == 'read':
+            getattr(resp, op[1])
 
 
 def _settle_loop():
@@ -500,12 +546,16 @@ def execute(case):
         class Resource(object):
             async def on_get(self, req, resp):
                 fill_response(case, resp, rec)
+                for rendered in body_ops_steps(case, resp):
+                    await rendered
             on_head = on_post = on_get
         app = falcon.asgi.App(response_type=rtype) if rtype else falcon.asgi.App()
     else:
         class Resource(object):
             def on_get(self, req, resp):
                 fill_response(case, resp, rec)
+                for _rendered in body_ops_steps(case, resp):
+                    pass
             on_head = on_post = on_get
         app = falcon.App(response_type=rtype) if rtype else falcon.App()
     app.add_route('/r', Resource())
@@ -1218,6 +1268,84 @@ class Big(Suite):
         return Info(True, labels)
 
 
+class BodyHistory(Suite):
+    """HISTORIES of assignments on one response before it is sent: text / data / media set, replaced and reset to None in
+    any order (3-10 operations), the media document changed in place and assigned again, with render_body() calls (what a
+    digest / logging middleware does) and plain reads of the properties in between.  Reference: the last value assigned to
+    each of the three, then the documented precedence; same framing oracle as `generated`."""
+
+    name = 'body_history'
+    budget = {'quick': 3000, 'thorough': 60000}
+
+    def strategy(self, tier):
+        doc = st.one_of(st.dictionaries(st.sampled_from(['a', 'b', 'version']), st.integers(0, 3), max_size=2),
+                        st.lists(st.integers(0, 3), max_size=2), st.integers(1, 5))
+        op = st.one_of(
+            st.tuples(st.just('text'), st.one_of(st.none(), st.sampled_from(['t1', 'T\u00e9xt-2']))),
+            st.tuples(st.just('data'), st.one_of(st.none(), st.sampled_from([b'd1', b'\x00data-2']))),
+            st.tuples(st.just('media'), st.one_of(st.none(), doc)),
+            st.just(('render',)), st.just(('render',)), st.just(('mutate_reassign',)),
+            st.tuples(st.just('read'), st.sampled_from(['text', 'data', 'media']))).map(list)
+
+        def attach(case, ops, code):
+            case = dict(case, body_ops=ops, custom=None)
+            if case.get('text') == '':
+                case['text'] = 't0'
+            if case.get('data') == b'':
+                case['data'] = b'd0'
+            if case.get('ctype') not in (None, 'application/json', 'application/json; charset=UTF-8'):
+                case['ctype'] = None
+            if case.get('stream') and case['stream']['kind'] == 'sse':
+                case['stream'] = None
+            if status_code_of(case['status']) in BODILESS or status_code_of(case['status']) < 200:
+                case['status'] = [case['status'][0], code if case['status'][0] != 'str' else '%d Hist' % code]
+            return case
+        return st.builds(attach, _response_case(), st.lists(op, min_size=3, max_size=10), st.sampled_from([200, 201, 404]))
+
+    def run(self, case):
+        case = dict(case, media0=case['media']['v'] if case.get('media') is not None else None)
+        final = body_ops_final(case)
+        try:
+            info = check_case(final)
+        except Violation as v:
+            head = v.detail.split('\n  case=')[0]
+            raise Violation(v.kind, '%s\n  history case=%r' % (head[:1500], {k: v2 for k, v2 in case.items() if k != 'media0'}))
+        kinds = [op[0] for op in case['body_ops']]
+        labels = list(info.labels) + ['ops:%d' % len(kinds)]
+        r = [i for i, k in enumerate(kinds) if k == 'render']
+        if r and any(k in ('text', 'data', 'media', 'mutate_reassign') for k in kinds[r[0] + 1:]):
+            labels.append('assignment_after_render')
+        if r and any(k in ('text', 'data', 'media', 'mutate_reassign') for k in kinds[:r[0]]) and len(r) >= 1:
+            labels.append('render_between_assignments')
+        if 'mutate_reassign' in kinds:
+            labels.append('mutate_then_reassign')
+        return Info('assignment_after_render' in labels, labels)
+
+
+
+class BodyHistoryEnum(Suite):
+    """EVERY history of at most 5 (thorough: 7) body operations on one response object, on falcon.Response and
+    falcon.asgi.Response: text / data / media assigned, replaced and reset to None, the media document changed in place and
+    assigned again, render_body() in between (vf/gen/resp_history.py).  Every render_body() result and the body that would
+    be sent must be the one that the last assignments and text > data > media give."""
+
+    name = 'body_history_enum'
+    exhaustive = True
+    budget = {'quick': 1, 'thorough': 1}
+    MAX_LEN = {'quick': 5, 'thorough': 7}
+
+    def cases(self, tier):
+        for stack in ('wsgi', 'asgi'):
+            for prefix in RH.block_cases(RH.FULL, 2 if tier == 'quick' else 3):
+                yield {'stack': stack, 'prefix': prefix, 'max_len': self.MAX_LEN[tier]}
+
+    def run(self, case):
+        make = falcon.Response if case['stack'] == 'wsgi' else falcon.asgi.Response
+        n, after = RH.run_block(make, RH.FULL, case['prefix'], case['max_len'], 'body_precedence')
+        return Info(True, [case['stack'], 'histories:%d' % n, 'with_render_before_an_assignment:%d' % after])
+
+
+
 class _Reset(Exception):
     pass
 
@@ -1319,7 +1447,7 @@ class AfterError(Suite):
         return Info(any(case['pre']), [case['stack'], 'final:' + final] + (['rendered_before_raise'] if case['render'] else []))
 
 
-SUITES = [Matrix(), StatusCodes(), FaultEnum(), Generated(), Big(), AfterError()]
+SUITES = [Matrix(), StatusCodes(), FaultEnum(), Generated(), Big(), BodyHistory(), BodyHistoryEnum(), AfterError()]
 
 
 # ----------------------------------------------------------------- known findings (narrow predicates)
